@@ -194,21 +194,27 @@ def check_kernels(repo, chk, tier):
             if len(dvals) != 1 or not isinstance(dvals[0], ast.Constant) or not isinstance(dvals[0].value, (int, float)):
                 raise AnalysisError("%s.init_params no longer sets self.d to one constant" % ckey)
             d_cls = sp.nsimplify(dvals[0].value)
+            # the decay the resonance was built for allows l = 1, 2: an explicit bw_l (0 included) is used as given,
+            # a missing one (None) defaults to the lowest allowed l
+            dec_tok = SelfObj(None, {"get_l_list": PyFunc(lambda: [sp.Integer(1), sp.Integer(2)])})
             for rw in (False, True):
-                for L in (0, 1, 2):
-                    Li = sp.Integer(L)
+                for L in (0, 1, 2, None):
+                    Li = sp.Integer(L) if L is not None else None
                     attrs = {
                         "get_mass": PyFunc(lambda: m0), "get_width": PyFunc(lambda: g0), "running_width": rw,
-                        "bw_l": Li, "d": d_cls, "width_norm": False, "decay": [None],
+                        "bw_l": Li, "d": d_cls, "width_norm": False, "decay": [dec_tok],
                     }
                     try:
-                        amp = Translator(repo, hooks=hooks, max_depth=7).call_fn(ga, [{"m": m}, {"|q|": p, "|q0|": p0, "|q|2": p ** 2, "|q0|2": p0 ** 2}], self_obj=SelfObj(cls, dict(attrs)))
-                        dom_ = Translator(repo, hooks={FORM + "get_relative_p": relp_hook, BWF + "get_bprime_coeff": coeff_hook}, max_depth=7).call_fn(gd, [m, m0, g0, m1, m2], self_obj=SelfObj(cls, dict(attrs)))
+                        amp = Translator(repo, hooks=dict(hooks, allow_attr_store=True), max_depth=7).call_fn(ga, [{"m": m}, {"|q|": p, "|q0|": p0, "|q|2": p ** 2, "|q0|2": p0 ** 2}], self_obj=SelfObj(cls, dict(attrs)))
+                        dom_ = Translator(repo, hooks={FORM + "get_relative_p": relp_hook, BWF + "get_bprime_coeff": coeff_hook, "allow_attr_store": True}, max_depth=7).call_fn(gd, [m, m0, g0, m1, m2], self_obj=SelfObj(cls, dict(attrs)))
                     except Unmodelled as e:
                         raise AnalysisError("%s.get_amp / get_sympy_dom cannot be interpreted (running_width=%s): %s" % (ckey, rw, e))
-                    oblige("E6-dom", "%s: get_sympy_dom * get_amp == 1 (running_width=%s, L=%d)" % (ckey, rw, L), dom_ * amp, sp.Integer(1), gd.key, "branch:running_width=%s,L=%d" % (rw, L), file=cls.mod.rel)
+                    oblige("E6-dom", "%s: get_sympy_dom * get_amp == 1 (running_width=%s, bw_l=%s)" % (ckey, rw, L), dom_ * amp, sp.Integer(1), gd.key, "branch:running_width=%s,L=%s" % (rw, L), file=cls.mod.rel)
                     if not rw:
                         break
+                    L_eff = sp.Integer(L) if L is not None else sp.Integer(1)
+                    ref_ = tr.call_fn(repo.fn(BWF + "BWR"), [m, m0, g0, p, p0, L_eff, d_cls])
+                    oblige("E6-dom", "%s: get_amp with bw_l=%s (decay allows l = 1, 2) == BWR(.., L=%s, d)" % (ckey, L, L_eff), amp, ref_, ga.key, "bw_l=%s" % L, file=cls.mod.rel)
 
     # ---- (d) trivial models
     one = tr.call_fn(repo.fn(BWF + "one"), [m])
